@@ -207,7 +207,10 @@ def run_detect2(c):
             f = io.BytesIO(data)
             if c["peekable"]:
                 f = io.BufferedReader(f)
-            name = numpy_pickle_utils._detect_compressor(f)
+            try:
+                name = numpy_pickle_utils._detect_compressor(f)
+            except Exception as e:  # noqa   -- an outcome of this head, not of the harness
+                name = "raise:" + type(e).__name__
             if name != "not-compressed":
                 hits.append([b0, b1, name])
     return {"hits": hits}
@@ -391,8 +394,16 @@ class Gen:
         self.kinds["ordereddict"] += 1
         return o
 
+    TINY = [None, True, False, (), 0, 1, "", b"", [], {}, 1.5, -1, "a"]
+
     def top(self):
         r = self.r
+        if self.size == "tiny":          # pickles of 2..12 bytes: shorter than the longest magic number
+            self.kinds["tiny"] += 1
+            return r.choice(self.TINY)
+        if isinstance(self.size, dict):  # {"tiny": index}
+            self.kinds["tiny"] += 1
+            return self.TINY[self.size["tiny"] % len(self.TINY)]
         parts = [self.obj(4) for _ in range(r.randrange(1, 5))]
         sz = self.size
         delta = r.choice([-3, -1, 0, 1, 2, 17])
@@ -480,6 +491,8 @@ def run_roundtrip(c):
     pre = c.get("pre", 0)
     tg = Target(c["target"], pre=pre)
     out = {"kinds": dict(g.kinds)}
+    if g.kinds.get("tiny"):
+        out["obj_repr"] = repr(obj)
     try:
         try:
             pickle.dumps(obj, protocol=c["proto"])
@@ -563,7 +576,8 @@ class NoName:
         return self._f.tell()
 
 
-CARRIERS = ["tempfile", "fdopen", "pipe", "spooled_mem", "spooled_disk", "noname", "bytesname", "fd_open"]
+CARRIERS = ["tempfile", "fdopen", "pipe", "spooled_mem", "spooled_disk", "noname", "bytesname", "fd_open", "unbuffered",
+            "bytesio"]
 
 
 class StreamClosed(Exception):
@@ -645,6 +659,26 @@ def carrier_roundtrip(obj, form, proto, carrier, wd, out):
             back = joblib.load(f)
             must_be_open(f, "load", out)
             return back
+    if carrier == "unbuffered":                     # io.FileIO: no peek()
+        with open(path, "wb", buffering=0) as f:
+            joblib.dump(obj, f, compress=form, protocol=proto)
+            must_be_open(f, "dump", out)
+        out["head"] = open(path, "rb").read(8).hex()
+        with open(path, "rb", buffering=0) as f:
+            out["name_type"] = type(getattr(f, "name", None)).__name__
+            back = joblib.load(f)
+            must_be_open(f, "load", out)
+            return back
+    if carrier == "bytesio":
+        b = io.BytesIO()
+        joblib.dump(obj, b, compress=form, protocol=proto)
+        must_be_open(b, "dump", out)
+        out["head"] = b.getvalue()[:8].hex()
+        out["name_type"] = "absent"
+        b.seek(0)
+        back = joblib.load(b)
+        must_be_open(b, "load", out)
+        return back
     if carrier == "noname":
         b = io.BytesIO()
         joblib.dump(obj, b, compress=form, protocol=proto)
@@ -670,6 +704,8 @@ def run_carrier(c):
     g = Gen(c["seed"], c["size"])
     obj = g.top()
     out = {"kinds": dict(g.kinds)}
+    if g.kinds.get("tiny"):
+        out["obj_repr"] = repr(obj)
     wd = tempfile.mkdtemp(dir=TMP)
     try:
         try:
